@@ -6,7 +6,7 @@
 From Coq Require Import ZArith List Bool String.
 From Coq.Strings Require Import Byte.
 From EsVerif.Common Require Import Base Bytes.
-From EsVerif.C16 Require Import Model Spec ChunkProofs Proofs.
+From EsVerif.C16 Require Import Model Spec ChunkProofs Proofs Ext ExtProofs Gen Tie.
 Local Open Scope list_scope.
 
 (* The whole statement for one call o1 = f(a, inplace, keep_dtype) and the same call repeated on
@@ -133,3 +133,139 @@ Example C16_nonvacuous :
   /\ orders (adt (o_res (to_native true ex_arr false false))) = [NA; LE; LE]
   /\ arr_values true (o_res (to_native true ex_arr false false)) = arr_values true ex_arr.
 Proof. exact nonvacuous. Qed.
+
+(* ===== the source tie: the definitions regenerated from esutil/numpy_util.py and
+   esutil/recfile/Util.py of the tree under check (Gen.v, rewritten on every run by
+   harness/props/c16_translate.py) ARE the hand model the theorems above are about. *)
+Theorem C16_source_tie :
+  (forall ml o, nu_is_big_endian_g ml o = is_big_endian ml o)
+  /\ (forall ml o, nu_is_little_endian_g ml o = is_little_endian ml o)
+  /\ (forall ml o, ru_is_little_endian_g ml o = is_little_endian ml o)
+  /\ (forall ml a ip k, nu_byteswap_g ml a ip k = byteswap ml a ip k)
+  /\ (forall ml a ip k, nu_to_native_g ml a ip k = to_native ml a ip k)
+  /\ (forall ml a ip k, nu_to_big_endian_g ml a ip k = to_big_endian ml a ip k)
+  /\ (forall ml a ip k, nu_to_little_endian_g ml a ip k = to_little_endian ml a ip k)
+  /\ (forall ml a, ru_to_native_inplace_g ml a = to_native_inplace ml a)
+  /\ (forall ml a, ru_to_native_g ml a = rec_to_native ml a)
+  /\ (forall d, nu_descr_to_native_g d = Some (descr_to_native d))
+  /\ (forall d, ru_remove_dtype_byteorder_g d = Some (descr_to_native d))
+  /\ nu_defaults = [(false, false); (false, false); (false, false); (false, false)].
+Proof. exact source_tie. Qed.
+
+(* hence the whole statement holds of the regenerated functions themselves *)
+Theorem C16_statement_of_source : forall ml f a inplace keep,
+  valid_dtype (adt a) -> uniform ml (adt a) ->
+  let g := match f with
+           | ToNative => nu_to_native_g | ToBig => nu_to_big_endian_g
+           | ToLittle => nu_to_little_endian_g | Swap => nu_byteswap_g
+           end in
+  conv_ok ml f a inplace keep (g ml a inplace keep) (g ml (o_res (g ml a inplace keep)) inplace keep).
+Proof. exact statement_of_source. Qed.
+
+(* the regenerated scan of the as-found tree is the unrepaired model refuted above; a view in place of
+   the assignment to .dtype returns a new object and leaves the caller's array mislabelled *)
+Theorem C16_source_asfound_scan : forall ml a ip k,
+  asfound_to_big_endian_g ml a ip k = to_big_endian_unrepaired ml a ip k.
+Proof. exact asfound_scan_is_unrepaired. Qed.
+
+Theorem C16_source_view_refuted : forall a,
+  let o := prim_view (dt_newbyteorder NbSwap true) (prim_byteswap a true) in
+  o_same o = false /\ adt (o_inp o) = adt a.
+Proof. exact view_instead_of_setdtype_refuted. Qed.
+
+(* ===== more of the code *)
+(* recfile.Util.to_native (after fix 7fcb8b2) on EVERY valid array, fields of different orders
+   included: values, native declared order, structure, argument untouched, the array itself exactly
+   when it was native already *)
+Theorem C16_rec_to_native_any_order : forall ml a,
+  valid_dtype (adt a) -> rec_native_ok ml a (rec_to_native ml a).
+Proof. exact rec_to_native_correct. Qed.
+
+Theorem C16_rec_to_native_idempotent : forall ml a, valid_dtype (adt a) ->
+  let r := o_res (rec_to_native ml a) in
+  o_same (rec_to_native ml r) = true /\ o_res (rec_to_native ml r) = r.
+Proof. exact rec_to_native_idempotent. Qed.
+
+(* astype between two layouts of the same geometry converts every field on its own *)
+Theorem C16_astype_fieldwise_values : forall ml ly ly' data,
+  Forall2 same_geom ly ly' -> Forall seg_valid ly -> Forall seg_valid ly' -> (1 <= rowsize (geom ly))%nat ->
+  values_as ml ly' (swap_data (cast_geom ml ly ly') data) = values_as ml ly data.
+Proof. exact values_as_cast. Qed.
+
+(* one decision for the whole record cannot convert a table whose fields differ in order *)
+Theorem C16_mixed_order_needs_fieldwise :
+  valid_dtype (adt mixed_witness) /\ ~ uniform true (adt mixed_witness)
+  /\ arr_values true mixed_witness = [[1; 2]]%Z
+  /\ adata (o_res (rec_to_native true mixed_witness)) = unhex "01000200"
+  /\ all_native true (adt (to_native_inplace true mixed_witness)) = false
+  /\ all_native true (adt (o_res (byteswap true mixed_witness false false))) = false.
+Proof. exact mixed_witness_facts. Qed.
+
+(* the four numpy_util functions on ANY valid array (no premise on the orders): values under the
+   updated dtype, structure, argument untouched with inplace off *)
+Theorem C16_values_any_order : forall ml f a ip, valid_dtype (adt a) ->
+  arr_values ml (o_res (apply f ml a ip false)) = arr_values ml a
+  /\ same_structure (adt (o_res (apply f ml a ip false))) (adt a)
+  /\ (ip = false -> o_inp (apply f ml a ip false) = a).
+Proof. exact values_any_order. Qed.
+
+(* non-contiguous input: the call on a view of a larger buffer is the modelled conversion of the
+   view's elements; elements outside the view are untouched; with inplace on the view shows the rows
+   of the returned array, with inplace off the buffer is untouched *)
+Theorem C16_view_conversion : forall f ml d sh base idx ip keep,
+  valid_dtype d -> NoDup idx -> (forall i, In i idx -> (i < List.length base)%nat) ->
+  (forall r, In r base -> List.length r = rowsize (geom (layout d))) ->
+  let o := fst (apply_view f ml d sh base idx ip keep) in
+  let base' := snd (apply_view f ml d sh base idx ip keep) in
+  o = apply f ml (view_arr d sh base idx) ip keep
+  /\ List.length base' = List.length base
+  /\ (forall j, ~ In j idx -> nth j base' [] = nth j base [])
+  /\ (ip = true -> gather [] idx base' = rows_of d (adata (o_res o)))
+  /\ (ip = false -> base' = base).
+Proof. exact view_correct. Qed.
+
+Theorem C16_gather_scatter : forall (d : list byte) idx, NoDup idx -> forall rows base,
+  (forall i, In i idx -> (i < List.length base)%nat) -> List.length rows = List.length idx ->
+  gather d idx (scatter idx rows base) = rows.
+Proof. exact (@gather_scatter (list byte)). Qed.
+
+(* nested structured dtypes: the scan sees the top level only *)
+Theorem C16_nested_top_level_scan : forall f ml top fs sh data ip keep,
+  let a := {| adt := DStruct fs; ashape := sh; adata := data |} in
+  (apply_top f ml (top_of fs) a ip keep = apply f ml a ip keep)
+  /\ (doswap_top f ml top = leaf_decision f ml a -> apply_top f ml top a ip keep = apply f ml a ip keep).
+Proof. exact nested_top_level. Qed.
+
+Theorem C16_nested_hidden_order_refuted :
+  valid_dtype (adt nested_witness) /\ uniform true (adt nested_witness)
+  /\ doswap_top ToBig true [NA] <> leaf_decision ToBig true nested_witness
+  /\ ~ declares_requested true ToBig (adt nested_witness) (adt (o_res (apply_top ToBig true [NA] nested_witness false false))).
+Proof. exact nested_hidden_order_refuted. Qed.
+
+Theorem C16_nested_only_not_idempotent :
+  let o1 := apply_top ToNative true [NA] nested_witness_be false false in
+  let o2 := apply_top ToNative true [NA] (o_res o1) false false in
+  orders (adt (o_res o1)) = [LE] /\ o_res o2 <> o_res o1 /\ adata (o_res o2) = adata nested_witness_be.
+Proof. exact nested_only_not_idempotent. Qed.
+
+(* soundness of the added checkers *)
+Theorem C16_ext_checkers_sound :
+  (forall ml a o, rec_native_check ml a o = true -> rec_native_ok ml a o)
+  /\ (forall ml a o, rec_native_check_core ml a o = true ->
+        arr_values ml (o_res o) = arr_values ml a /\ all_native ml (adt (o_res o)) = true
+        /\ (same_structure (adt (o_res o)) (adt a) /\ ashape (o_res o) = ashape a) /\ o_inp o = a)
+  /\ (forall d base idx, view_wf_b d base idx = true ->
+        valid_dtype d /\ NoDup idx /\ (forall i, In i idx -> (i < List.length base)%nat)
+        /\ (forall r, In r base -> List.length r = rowsize (geom (layout d))))
+  /\ (forall d base idx ip o1 base1, view_check d base idx ip o1 base1 = true ->
+        (ip = true -> gather [] idx base1 = rows_of d (adata (o_res o1))) /\ (ip = false -> base1 = base))
+  /\ (forall ml d, all_native ml d = true -> uniform ml d).
+Proof. exact ext_checkers_sound. Qed.
+
+(* non-vacuity of the extension: a 0-d big-endian complex array converted in place *)
+Example C16_zero_d_complex :
+  let a := {| adt := DPlain {| skind := KComplex; ssize := 8; sord := BE |}; ashape := []; adata := unhex "3f80000040000000" |} in
+  adata (o_res (to_native true a true false)) = unhex "0000803f00000040"
+  /\ ashape (o_res (to_native true a true false)) = []
+  /\ arr_values true (o_res (to_native true a true false)) = arr_values true a.
+Proof. exact zero_d_example. Qed.
